@@ -535,9 +535,36 @@ def nnf(f, neg=False):
         g = mk_or(mk_and(c, a), mk_and(mk_not(c), b))
         return nnf(g, neg)
     if k == 'cmp':
+        lifted = _lift_ite(f)
+        if lifted is not None:
+            return nnf(lifted, neg)
         return mk_not(f) if neg else f
     # propositional atom
     return ('not', f) if neg else f
+
+
+def _find_ite(t):
+    if not isinstance(t, tuple) or not t:
+        return None
+    if t[0] == 'ite' and not is_boolean_term(t):
+        return t
+    if t[0] in ('add', 'sub', 'mul', 'neg'):
+        for x in t[1:]:
+            r = _find_ite(x)
+            if r is not None:
+                return r
+    return None
+
+
+def _lift_ite(f):
+    """cmp(op, ..ite(c,a,b).., y)  ->  (c and cmp[a]) or (not c and cmp[b])"""
+    it = _find_ite(f[2]) or _find_ite(f[3])
+    if it is None:
+        return None
+    c, a, b = it[1], it[2], it[3]
+    fa = subst(f, {it: a})
+    fb = subst(f, {it: b})
+    return mk_or(mk_and(c, fa), mk_and(mk_not(c), fb))
 
 
 def dnf(f, limit=4096):
